@@ -79,6 +79,12 @@ func (d *unmarshalTextDecoder) DecodeStream(s *Stream, depth int64, p unsafe.Poi
 				Type:   runtime.RType2Type(d.typ),
 				Offset: s.totalOffset(),
 			}
+		case 't', 'f':
+			return &errors.UnmarshalTypeError{
+				Value:  "bool",
+				Type:   runtime.RType2Type(d.typ),
+				Offset: s.totalOffset(),
+			}
 		case 'n':
 			if bytes.Equal(src, nullbytes) {
 				d.decodeNull(p)
@@ -129,6 +135,12 @@ func (d *unmarshalTextDecoder) Decode(ctx *RuntimeContext, cursor, depth int64, 
 		case '-', '0', '1', '2', '3', '4', '5', '6', '7', '8', '9':
 			return 0, &errors.UnmarshalTypeError{
 				Value:  "number",
+				Type:   runtime.RType2Type(d.typ),
+				Offset: start,
+			}
+		case 't', 'f':
+			return 0, &errors.UnmarshalTypeError{
+				Value:  "bool",
 				Type:   runtime.RType2Type(d.typ),
 				Offset: start,
 			}
